@@ -8,6 +8,7 @@ package props
 import (
 	"errors"
 	"fmt"
+	"strconv"
 	"strings"
 	"sync"
 
@@ -100,7 +101,7 @@ func (g *progGen) atom() string {
 		if g.o.ticks && g.chance(2, "tickatom") {
 			return "tick()"
 		}
-		return pick(g.t, "call", []string{`greet("x")`, "obj.Greeting()", "obj.Greeting", "twice(n)", "obj.Hello(name)", `sum(1, 2, 3)`, "valfn(name)", `ctxjoin(name, "x", 3)`})
+		return pick(g.t, "call", []string{`greet("x")`, "obj.Greeting()", "obj.Greeting", "twice(n)", "obj.Hello(name)", `sum(1, 2, 3)`, "valfn(name)", `ctxjoin(name, "x", 3)`, `ctxsum(1, 2, 3, 4, n)`, `ctxsum(n)`, `ctxjoin(title, name, n)`})
 	case 4:
 		if g.o.errProne && g.chance(3, "bad") {
 			return pick(g.t, "badcall", []string{"n / zero", "greet()", "obj.Nope.x", "fails(0)", "n.x", `greet(1)`, "name.0.0.0", "fails(1)"})
@@ -515,7 +516,7 @@ func genProgramWith(t *rapid.T, o progOpts, extraNames []string) *Program {
 	root := sb.String()
 	if o.inherit && drawInt(t, 0, 3, "inh") == 0 {
 		// whitespace next to the block tags, so that TrimBlocks / LStripBlocks matter in the parent too
-		g.files["/base.tpl"] = "BASE[\n  {% block content %}\n\nbase-content{% endblock %}\n\n|\t{% block side %}\n {{ name }}{% endblock %}\n]" + g.text()
+		g.files["/base.tpl"] = "BASE[\n  {% block content %}\n\nbase-content{{ name }}{% for w in words %}{{ w }}{% endfor %}{% endblock %}\n\n|\t{% block side %}\n {{ name }}{% endblock %}\n]" + g.text()
 		over := "{% block content %}" + root + "{% if flag %}{{ block.Super }}{% else %}{{ block.Super|add:name }}{% endif %}{% endblock %}"
 		// blocks generated inside root are nested in 'content': fine (fresh names)
 		root = `{% extends "/base.tpl" %}` + over
@@ -603,6 +604,20 @@ func progContext(variant int, ts *tickState) pongo2.Context {
 			return t
 		},
 		"valfn": func(v *pongo2.Value) *pongo2.Value { return pongo2.AsValue(v.String() + "!") },
+		// functions that take the execution context as an implicit first argument
+		"ctxjoin": func(ctx *pongo2.ExecutionContext, a, b string, n int) string {
+			return a + "+" + b + "+" + strconv.Itoa(n)
+		},
+		"ctxsum": func(ctx *pongo2.ExecutionContext, xs ...int) int {
+			t := 0
+			for _, x := range xs {
+				t += x
+			}
+			if ctx == nil {
+				return -1
+			}
+			return t
+		},
 		"fails": func(i int) (int, error) {
 			if i == 0 {
 				return 0, errors.New("fails(0)")
